@@ -12,7 +12,9 @@ def PhOk : Op → Prop
 structure RaInv (ra : Ra) : Prop where
   wf : ra.gi.vb = none
   sealedI : (ra.launched = true ∨ ra.plan.isSome = true) → ra.gi.sealed = true
-  closed : ra.tph = 0 → ra.bal = [] ∧ ra.md = false ∧ ra.nOpen = 0 ∧ ∀ a st, ra.plan = some (a, st) → st = false
+  -- while the bridge is closed nothing is credited; metadata of the rollapp's IBC denom can exist only by a
+  -- registration outside the handshake (`premd`), which needs a recorded canonical channel
+  closed : ra.tph = 0 → ra.bal = [] ∧ (ra.md = true → ra.chan.isSome = true) ∧ ra.nOpen = 0 ∧ ∀ a st, ra.plan = some (a, st) → st = false
   opened : ra.tph ≠ 0 → ra.nOpen = 1
 
 theorem AllRa.append {P : Ra → Prop} {s : St} {x : Ra} (h : AllRa P s) (hx : P x) (s' : St) (e : s'.ras = s.ras ++ [x]) : AllRa P s' := by
@@ -62,8 +64,9 @@ theorem enable_inv {ra : Ra} (pl ps : Option Nat) (hra : RaInv ra) :
 theorem seq_inv {ra : Ra} (hra : RaInv ra) : RaInv { ra with launched := true, gi := { ra.gi with sealed := true } } :=
   ⟨by rw [vb_sealed]; exact hra.wf, fun _ => rfl, hra.closed, hra.opened⟩
 
-theorem link_inv {ra : Ra} (c : Option Nat) (hra : RaInv ra) : RaInv { ra with linked := true, chan := c } :=
-  ⟨hra.wf, hra.sealedI, hra.closed, hra.opened⟩
+theorem link_inv {ra : Ra} (c : Option Nat) (hc : ra.chan.isSome = true → c.isSome = true) (hra : RaInv ra) :
+    RaInv { ra with linked := true, chan := c } :=
+  ⟨hra.wf, hra.sealedI, fun ht => ⟨(hra.closed ht).1, fun hm => hc ((hra.closed ht).2.1 hm), (hra.closed ht).2.2⟩, hra.opened⟩
 
 theorem handshake_inv {ra : Ra} (ph : Nat) (p : Pkt) (hra : RaInv ra) (ht0 : ra.tph = 0) (hph : 0 < ph) :
     RaInv (handshake ra ph p).1 := by
@@ -109,9 +112,11 @@ theorem stepForce_inv (s : St) (r : Nat) (gov : Bool) (g : GInfo) (h : AllRa RaI
     | (rename_i ra hg _ _
        exact h.setRa (force_inv _ (h.get hg) (by simp_all)))
 
-theorem stepPlan_inv (s : St) (r : Nat) (owner : Bool) (alloc : Int) (dur : Nat) (te : Bool) (h : AllRa RaInv s) :
-    AllRa RaInv (stepPlan s r owner alloc dur te).1 := by
+theorem stepPlan_inv (s : St) (r : Nat) (owner : Bool) (alloc : Int) (dur : Nat) (te : Bool) (start : Option Nat) (h : AllRa RaInv s) :
+    AllRa RaInv (stepPlan s r owner alloc dur te start).1 := by
   unfold stepPlan
+  split
+  · exact h
   cases hg : getRa s r with
   | none => exact h
   | some ra =>
@@ -145,12 +150,43 @@ theorem stepLink_inv (s : St) (r : Nat) (h : AllRa RaInv s) : AllRa RaInv (stepL
   all_goals first
     | exact h
     | (rename_i ra hg _
-       exact AllRa.of_ras (h.setRa (link_inv _ (h.get hg))) rfl)
+       exact AllRa.of_ras (h.setRa (link_inv _ (fun _ => rfl) (h.get hg))) rfl)
 
 theorem stepLink2_inv (s : St) (r : Nat) (h : AllRa RaInv s) : AllRa RaInv (stepLink2 s r).1 := by
   unfold stepLink2
   repeat' split
   all_goals exact h
+
+theorem stepCanon_inv (s : St) (r : Nat) (h : AllRa RaInv s) : AllRa RaInv (stepCanon s r).1 := by
+  unfold stepCanon
+  repeat' split
+  all_goals first
+    | exact h
+    | (rename_i ra hg _
+       exact h.setRa (link_inv ra.chan id (h.get hg)))
+
+theorem chan_inv {ra : Ra} (c : Nat) (hra : RaInv ra) : RaInv { ra with chan := some c } :=
+  ⟨hra.wf, hra.sealedI, fun ht => ⟨(hra.closed ht).1, fun _ => rfl, (hra.closed ht).2.2⟩, hra.opened⟩
+
+theorem premd_inv {ra : Ra} (hc : ra.chan.isSome = true) (hra : RaInv ra) : RaInv { ra with md := true } :=
+  ⟨hra.wf, hra.sealedI, fun ht => ⟨(hra.closed ht).1, fun _ => hc, (hra.closed ht).2.2⟩, hra.opened⟩
+
+theorem stepPremd_inv (s : St) (r : Nat) (h : AllRa RaInv s) : AllRa RaInv (stepPremd s r).1 := by
+  unfold stepPremd
+  repeat' split
+  all_goals first
+    | exact h
+    | (rename_i ra hg hc _
+       exact h.setRa (premd_inv (by cases hch : ra.chan <;> simp_all) (h.get hg)))
+
+theorem stepChopen_inv (s : St) (r : Nat) (via : Nat) (h : AllRa RaInv s) : AllRa RaInv (stepChopen s r via).1 := by
+  unfold stepChopen
+  repeat' split
+  all_goals first
+    | exact h
+    | exact h.of_ras rfl
+    | (rename_i ra hg _ _ _
+       exact AllRa.of_ras (h.setRa (chan_inv _ (h.get hg))) rfl)
 
 theorem stepSend_inv (s : St) (c : Nat) (h : AllRa RaInv s) : AllRa RaInv (stepSend s c).1 := by
   unfold stepSend
@@ -170,12 +206,15 @@ theorem step_inv (s : St) (op : Op) (h : AllRa RaInv s) (hp : PhOk op) : AllRa R
   | create r g => exact stepCreate_inv s r g h
   | setgi r owner g => exact stepSetgi_inv s r owner g h
   | force r gov g => exact stepForce_inv s r gov g h
-  | plan r owner alloc dur te => exact stepPlan_inv s r owner alloc dur te h
+  | plan r owner alloc dur te start => exact stepPlan_inv s r owner alloc dur te start h
   | enable r owner => exact stepEnable_inv s r owner h
   | tick dt => exact h.of_ras rfl
   | seq r => exact stepSeq_inv s r h
   | link r => exact stepLink_inv s r h
   | link2 r => exact stepLink2_inv s r h
+  | canon r => exact stepCanon_inv s r h
+  | chopen r via => exact stepChopen_inv s r via h
+  | premd r => exact stepPremd_inv s r h
   | plainch => exact h.of_ras rfl
   | send c => exact stepSend_inv s c h
   | recv c ph p => exact stepRecv_inv s c ph p h hp
